@@ -37,7 +37,7 @@ const char *mc_rule = "part A: DFS grid width 0..9 x id set (0, 2^k-1, 2^k, 2^k+
                       "nontrivial = id occupies the most significant header byte or does not fit. "
                       "part B: BFS over histories of arm (context width; in the :altarm jobs additionally once per history with id length 0, width-1, width+1, 4 or 5)/reply/context_reply/defer/handle reply/handle release/addref/unref x transport accepts|rejects on a fresh mpt_reply_deferrable context, "
                       "canonical-state dedupe; nontrivial = distinct (history, op) steps executed while a request is deferred, was rejected by the transport before, or a second request exists. "
-                      "part D: the same request/handler scripts (plus defer with late handle use, dispatch without handler) through mpt_connection_dispatch on a stream backed and on a datagram connection. part C: DFS over 1..2 requests x {zero id, id} x 7 handler scripts x {handler returns 0, returns an error} x 2 open modes, two further dispatch rounds after every delivery, x {one by one, queued together} through mpt_stream_input on a socketpair; nontrivial = two requests or a script other than none/reply";
+                      "part D: the same request/handler scripts (plus defer with late handle use, dispatch without handler) through mpt_connection_dispatch on a stream backed and on a datagram connection. part E: requester side, 1..2 incoming replies from 5 letters x {mpt_connection_dispatch, mpt_stream_sync} x {id reused afterwards or not}, each case in a forked child. part C: DFS over 1..2 requests x {zero id, id} x 7 handler scripts x {handler returns 0, returns an error} x 2 open modes, two further dispatch rounds after every delivery, x {one by one, queued together} through mpt_stream_input on a socketpair; nontrivial = two requests or a script other than none/reply";
 
 // =====================================================================
 // Part A
@@ -670,8 +670,8 @@ static void stream_case(Run &r, Ctx &x, int idlen)
 // Part D: mpt_connection_dispatch() — the dispatcher that arms the deferrable reply context with its real transports
 // (replyConnection -> mpt_stream_reply for a stream backed connection, mpt_outdata_reply for a datagram socket).
 // =====================================================================
-enum CScript { C_NONE, C_REPLY, C_REPLY_TWICE, C_CREPLY, C_DEFER_REPLY, C_DEFER_RELEASE, C_DISCARD, C_NSCRIPT };
-static const char *cscriptnm[] = {"no answer", "reply(msg)", "reply(msg) twice", "mpt_context_reply", "defer(), handle.reply(msg) after the dispatch", "defer(), handle released after the dispatch", "dispatch without handler (discard)"};
+enum CScript { C_NONE, C_REPLY, C_REPLY_TWICE, C_CREPLY, C_DEFER_REPLY, C_DEFER_RELEASE, C_DISCARD, C_REPLY_BIG, C_NSCRIPT };
+static const char *cscriptnm[] = {"no answer", "reply(msg)", "reply(msg) twice", "mpt_context_reply", "defer(), handle.reply(msg) after the dispatch", "defer(), handle released after the dispatch", "dispatch without handler (discard)", "reply(300 byte msg)"};
 struct CReq { std::vector<uint8_t> id; bool wants; int script; bool fail; int r1, r2; bool handled, had_ctx; int onwire, delivered; mpt::reply_context_detached *handle; };
 struct CCase { std::vector<CReq> rq; int stray; };
 static int conn_handler(void *arg, mpt::event *ev)
@@ -692,6 +692,7 @@ static int conn_handler(void *arg, mpt::event *ev)
 	case C_REPLY: q.r1 = LIB(rc->reply(&m)); break;
 	case C_REPLY_TWICE: q.r1 = LIB(rc->reply(&m)); q.r2 = LIB(rc->reply(&m)); break;
 	case C_CREPLY: q.r1 = LIB(mpt::mpt_context_reply(rc, 3, "%s", "text")); break;
+	case C_REPLY_BIG: { static uint8_t big[300]; memset(big, 'B', sizeof big); big[0] = mpt::msgtype::Answer; big[1] = 0; mpt::message mb(big, sizeof big); q.r1 = LIB(rc->reply(&mb)); break; }
 	case C_DEFER_REPLY: case C_DEFER_RELEASE: q.handle = LIB(rc->defer()); break;
 	}
 	return q.fail ? mpt::BadOperation : 0;
@@ -707,9 +708,10 @@ static void conn_case(Run &r, Ctx &x, int idlen, bool dgram)
 		c.rq.push_back(q);
 	}
 	bool together = !dgram && n > 1 && x.choose(2) != 0;
+	size_t pad = dgram && x.choose(2) ? 98 : 0;    // request content of 2 or 100 bytes
 	bool handles_first = x.choose(2) != 0;          // deferred handles are used before / after the connection dispatched everything
 	const char *grp = dgram ? "dgram" : "conn";
-	std::string desc = fmt("%s connection idlen=%d%s%s:", dgram ? "datagram" : "stream backed", idlen, together ? " both requests queued before dispatch" : "", handles_first ? "" : ", handles used after all dispatches");
+	std::string desc = fmt("%s connection idlen=%d%s%s%s:", dgram ? "datagram" : "stream backed", idlen, together ? " both requests queued before dispatch" : "", handles_first ? "" : ", handles used after all dispatches", pad ? ", 100 byte requests" : "");
 	for (auto &q : c.rq) desc += " [id " + hex(q.id.data(), idlen) + ", " + cscriptnm[q.script] + (q.fail && q.script != C_DISCARD ? ", handler returns an error" : "") + "]";
 	r.note("%s", desc.c_str());
 	++r.transitions;
@@ -735,7 +737,7 @@ static void conn_case(Run &r, Ctx &x, int idlen, bool dgram)
 		*(void **) &con->out.buf = srm;
 	}
 	con->out._idlen = (uint8_t) idlen;
-	auto send = [&](const CReq &q) { std::vector<uint8_t> m(q.id); m.push_back('r'); m.push_back((uint8_t) ('0' + (&q - &c.rq[0]))); if (!dgram) m = cobs(m); return write(sv[1], m.data(), m.size()) == (ssize_t) m.size(); };
+	auto send = [&](const CReq &q) { std::vector<uint8_t> m(q.id); m.push_back('r'); m.push_back((uint8_t) ('0' + (&q - &c.rq[0]))); m.insert(m.end(), pad, (uint8_t) 'p'); if (!dgram) m = cobs(m); return write(sv[1], m.data(), m.size()) == (ssize_t) m.size(); };
 	auto use_handle = [&](CReq &q) {
 		if (!q.handle) return;
 		mpt::msgtype hdr(mpt::msgtype::Answer, 0); mpt::message m(&hdr, sizeof(hdr));
@@ -765,7 +767,7 @@ static void conn_case(Run &r, Ctx &x, int idlen, bool dgram)
 	if (srm) LIB(mpt::mpt_stream_flush(srm));
 	std::vector<std::vector<uint8_t>> msgs; bool garbled = false; std::string wtxt = " wire:";
 	if (dgram) {
-		for (int i = 0; i < 8; ++i) { uint8_t b[512]; ssize_t g = read(sv[1], b, sizeof b); if (g < 0) break; msgs.push_back(std::vector<uint8_t>(b, b + g)); wtxt += " [" + hex(b, g) + "]"; }
+		for (int i = 0; i < 8; ++i) { uint8_t b[2048]; ssize_t g = read(sv[1], b, sizeof b); if (g < 0) break; msgs.push_back(std::vector<uint8_t>(b, b + g)); wtxt += " [" + hex(b, g) + "]"; }
 	} else {
 		uint8_t wire[4096]; ssize_t got = read(sv[1], wire, sizeof wire); if (got < 0) got = 0;
 		wtxt += " " + hex(wire, got);
@@ -793,17 +795,16 @@ static void conn_case(Run &r, Ctx &x, int idlen, bool dgram)
 	for (auto &q : c.rq) {
 		std::string pfx = std::string(grp) + ": ";
 		if (!q.handled) {
-			if (q.wants && !dgram) { r.violation("conn.dispatch|pending|request-starved", desc + " request id " + hex(q.id.data(), idlen) + " was never dispatched;" + wtxt); return; }
+			if (q.wants) { r.violation(std::string(grp) + ".dispatch|pending|request-starved", desc + " request id " + hex(q.id.data(), idlen) + " was never dispatched;" + wtxt); return; }
 			r.count(pfx + "request not delivered to the handler (not flagged)"); continue;
 		}
 		if (!q.wants) { r.count(pfx + "zero id request dispatched, nothing on the wire for it"); continue; }
-		if (q.script != C_DISCARD && !q.had_ctx) { r.count(pfx + "request with id got no reply context (not flagged)"); continue; }
+		if (q.script != C_DISCARD && !q.had_ctx) { r.violation(std::string(grp) + ".dispatch|pending|request-not-armed", desc + " request id " + hex(q.id.data(), idlen) + " reached the handler without reply context (and got no default reply);" + wtxt); return; }
 		if (q.script != C_NONE && q.script != C_REPLY) nontriv = true;
 		if (q.script == C_REPLY_TWICE && q.r1 >= 0 && q.r2 >= 0) { r.violation(std::string(grp) + ".reply|answered|further-attempt-not-refused", desc + fmt(" second reply() after an accepted one returned %d;", q.r2) + wtxt); return; }
 		// the transport is attached and idle in every script: every request with an id ends with exactly one reply
 		if (!q.onwire) {
-			if (!dgram) { r.violation("conn.dispatch|armed|no-default-reply", desc + " request id " + hex(q.id.data(), idlen) + " (" + cscriptnm[q.script] + ") ended without any reply on the wire;" + wtxt); return; }
-			r.count(pfx + "no reply on the wire (not flagged)"); continue;
+			{ r.violation(std::string(grp) + ".dispatch|armed|no-default-reply", desc + " request id " + hex(q.id.data(), idlen) + " (" + cscriptnm[q.script] + ") ended without any reply on the wire;" + wtxt); return; }
 		}
 		r.count(pfx + cscriptnm[q.script] + ": exactly one reply on the wire, full id, marked");
 		if (q.fail && q.script != C_DISCARD) r.count(pfx + "handler returned an error, exactly one reply on the wire");
@@ -813,6 +814,126 @@ static void conn_case(Run &r, Ctx &x, int idlen, bool dgram)
 	if (leaked) { r.violation(std::string(grp) + ".release|all-released|leak", desc + fmt(" %zu block(s) still allocated after mpt_connection_fini", leaked)); return; }
 	if (nontriv) r.count("nontrivial");
 	++r.states;
+}
+
+// =====================================================================
+// Part E: the requesting side ("to the right requester").  Requests wait in a command array (mpt_command_set, as
+// mpt_connection_await does); replies arrive on a stream and are delivered by mpt_connection_dispatch (stream branch)
+// or by mpt_stream_sync.  Every case runs in a forked child (a spinning sync would otherwise stall the explorer).
+// =====================================================================
+enum RLetter { R_ID1, R_ID2, R_UNKNOWN, R_ID1_AGAIN, R_TOOWIDE, R_NLETTER };
+static const char *rletternm[] = {"reply for request 1", "reply for request 2", "reply for an id nobody waits for", "another reply for request 1", "reply whose id needs more than 64 bit"};
+static const uint64_t PATTERN_ID = 0xAAAAAAAAAAAAAAAAULL;    // what an uninitialised 64 bit local holds in this build
+struct RCase { std::string log; };
+static RCase *g_rcase = 0;
+static int wait_handler(void *arg, void *msgp)
+{
+	const char *who = (const char *) arg;
+	if (!msgp) { g_rcase->log += std::string(who) + ":cancel;"; return 0; }
+	mpt::message m = *(const mpt::message *) msgp;
+	uint8_t tag[2] = {'?', '?'};
+	mpt::mpt_message_read(&m, 2, tag);
+	g_rcase->log += std::string(who) + ":" + (char) tag[0] + (char) tag[1] + ";";
+	return 0;
+}
+static int generic_handler(void *, mpt::event *) { g_rcase->log += "generic;"; return 0; }
+static std::string req_child(int idlen, bool sync, const std::vector<int> &letters, bool rereg)
+{
+	RCase c; g_rcase = &c;
+	int sv[2];
+	if (socketpair(AF_UNIX, SOCK_STREAM, 0, sv) < 0) return "setup-failed";
+	fcntl(sv[0], F_SETFL, O_NONBLOCK);
+	mpt::connection *con = (mpt::connection *) calloc(1, sizeof(mpt::connection));
+	con->out.sock._id = -1;
+	mpt::stream *srm = (mpt::stream *) calloc(1, sizeof(mpt::stream));
+	srm->_rd._state.data.msg = -1;
+	srm->_wd._enc = mpt::mpt_message_encoder(mpt::EncodingCobs);
+	srm->_rd._dec = mpt::mpt_message_decoder(mpt::EncodingCobs);
+	mpt::socket sock; sock._id = sv[0];
+	if (mpt::mpt_stream_dopen(srm, &sock, mpt::stream::RdWr | mpt::stream::Buffer) < 0) return "setup-failed";
+	*(void **) &con->out.buf = srm;
+	con->out._idlen = (uint8_t) idlen;
+	mpt::array *wait = (mpt::array *) &con->_wait;
+	static char A[] = "A1", B[] = "A2", P[] = "AP", N[] = "B1";
+	mpt::mpt_command_set((decltype(&con->_wait)) wait, 1, wait_handler, A);
+	mpt::mpt_command_set((decltype(&con->_wait)) wait, 2, wait_handler, B);
+	if (idlen >= 9) mpt::mpt_command_set((decltype(&con->_wait)) wait, (uintptr_t) PATTERN_ID, wait_handler, P);
+	// the peer's replies: header = id with reply mark, content = tag "t<k>"
+	int k = 0;
+	for (int l : letters) {
+		std::vector<uint8_t> m(idlen, 0);
+		uint64_t id = l == R_ID2 ? 2 : (l == R_UNKNOWN ? 7 : 1);
+		for (int i = 0; i < idlen && i < 8; ++i) m[idlen - 1 - i] = (uint8_t) (id >> 8 * i);
+		if (l == R_TOOWIDE) { std::fill(m.begin(), m.end(), 0); m[0] = 0x01; m[1] = 0x80; }
+		m[0] |= 0x80;
+		m.push_back('t'); m.push_back((uint8_t) ('0' + k++));
+		std::vector<uint8_t> e = cobs(m);
+		if (write(sv[1], e.data(), e.size()) != (ssize_t) e.size()) return "setup-failed";
+	}
+	auto rounds = [&](int n) {
+		for (int i = 0; i < n; ++i) {
+			if (sync) { int ret = mpt::mpt_stream_sync(srm, idlen, &con->_wait, 0); c.log += fmt("sync=%d;", ret < 0 ? -1 : (ret > 0 ? 1 : 0)); }
+			else { mpt::mpt_stream_poll(srm, POLLIN, 0); mpt::mpt_connection_dispatch(con, generic_handler, 0); }
+		}
+	};
+	rounds((int) letters.size() + 2);
+	if (rereg) {
+		c.log += "rereg;";
+		// a later request takes the lowest free id again (what mpt_command_reserve does): it was never answered by the peer
+		mpt::mpt_command_set((decltype(&con->_wait)) wait, 1, wait_handler, N);
+		rounds(2);
+	}
+	c.log += "end;";
+	return c.log;
+}
+static void req_case(Run &r, Ctx &x, int idlen)
+{
+	bool sync = x.choose(2) != 0;
+	size_t n = 1 + x.choose(2);
+	std::vector<int> letters;
+	for (size_t i = 0; i < n; ++i) letters.push_back((int) x.choose(idlen >= 9 ? R_NLETTER : R_NLETTER - 1));
+	bool rereg = x.choose(2) != 0;
+	std::string desc = fmt("requester idlen=%d via %s:", idlen, sync ? "mpt_stream_sync" : "mpt_connection_dispatch");
+	for (int l : letters) desc += std::string(" [") + rletternm[l] + "]";
+	if (rereg) desc += " then a new request reuses id 1";
+	r.note("%s", desc.c_str());
+	++r.transitions;
+	const char *grp = sync ? "sync" : "connreq";
+	r.hint(grp);
+	std::string out = in_child([&]() { return req_child(idlen, sync, letters, rereg); }, 4);
+	r.note("deliveries: %s", out.c_str());
+	if (out == "setup-failed") { r.incomplete("requester setup failed"); return; }
+	if (!out.empty() && out[0] == '\x01') { r.violation(std::string(grp) + "|" + (out == "\x01HANG" ? "HANG" : (out.compare(1, 3, "SIG") == 0 ? "SIGNAL" : "EXIT")), desc + " child ended with " + out.substr(1)); return; }
+	// expected receiver of each tag
+	std::map<std::string, std::string> owner; std::map<std::string, int> seen; std::map<std::string, int> got;
+	int first1 = -1;
+	for (size_t i = 0; i < letters.size(); ++i) {
+		std::string tag = fmt("t%zu", i);
+		if (letters[i] == R_ID2) owner[tag] = "A2";
+		else if (letters[i] == R_ID1 || letters[i] == R_ID1_AGAIN) { owner[tag] = first1 < 0 ? "A1" : ""; if (first1 < 0) first1 = (int) i; }   // a second reply for request 1 has no requester left
+		else owner[tag] = "";
+	}
+	size_t p = 0; bool after_rereg = false;
+	while (p < out.size()) {
+		size_t e = out.find(';', p); if (e == std::string::npos) break;
+		std::string ev = out.substr(p, e - p); p = e + 1;
+		if (ev == "rereg") { after_rereg = true; continue; }
+		size_t c2 = ev.find(':'); if (c2 == std::string::npos) continue;
+		std::string who = ev.substr(0, c2), tag = ev.substr(c2 + 1);
+		if (tag == "cancel") continue;
+		std::string cls = letters.size() > 1 ? "two-replies" : "one-reply";
+		if (who == "B1") { r.violation(std::string(grp) + "|" + (after_rereg ? "id-reused" : cls) + "|delivered-to-later-request", desc + " the new request, which the peer never answered, received reply " + tag + "; deliveries: " + out); return; }
+		if (++seen[tag] > 1) { r.violation(std::string(grp) + "|" + cls + "|reply-delivered-twice", desc + " reply " + tag + " was delivered twice; deliveries: " + out); return; }
+		if (!owner.count(tag) || owner[tag] != who) {
+			bool wide = false; for (size_t i = 0; i < letters.size(); ++i) if (fmt("t%zu", i) == tag && letters[i] == R_TOOWIDE) wide = true;
+			r.violation(std::string(grp) + "|" + cls + (wide ? "|id-too-wide-delivered" : (owner.count(tag) && owner[tag].empty() && who == "A1" ? "|request-answered-twice" : "|wrong-requester")), desc + " reply " + tag + " was handed to request " + who + "; deliveries: " + out); return;
+		}
+		++got[who];
+	}
+	for (auto &o : owner) if (!o.second.empty() && !seen.count(o.first)) r.count(std::string(grp) + ": reply not delivered to its waiting request (not flagged)");
+	for (auto &g : got) r.count(std::string(grp) + ": reply delivered exactly once to the request with its id", g.second);
+	if (rereg) r.count(std::string(grp) + ": later request reusing the id received nothing");
+	r.count("nontrivial"); ++r.states;
 }
 // =====================================================================
 static const int quick_idlen[] = {1, 2, 3, 4, 5, 8, 9};
@@ -828,6 +949,7 @@ void mc_jobs(Tier t, std::vector<std::string> &jobs)
 	for (int l : {1, 2, 4, 5, 8, 9, 12, 16}) jobs.push_back(fmt("stream:idlen=%d", l));
 	for (int l : {1, 2, 4, 5, 9}) jobs.push_back(fmt("conn:idlen=%d", l));
 	for (int l : {1, 2, 5}) jobs.push_back(fmt("dgram:idlen=%d", l));
+	for (int l : {2, 9}) jobs.push_back(fmt("requester:idlen=%d", l));
 }
 static int proto_setup(Tier t, const std::string &job)
 {
@@ -872,12 +994,20 @@ void mc_explore(Run &r, const std::string &job)
 		if (w == 9) r.require("ids: 9-byte header above 2^64 refused by decoder");
 		return;
 	}
+	if (job.compare(0, 10, "requester:") == 0) {
+		int l = atoi(job.c_str() + 16);
+		r.require("sync: reply delivered exactly once to the request with its id"); r.require("connreq: reply delivered exactly once to the request with its id");
+		r.require("sync: later request reusing the id received nothing"); r.require("connreq: later request reusing the id received nothing");
+		if (l == 2) r.sample("requester idlen=2: requests 1 and 2 wait in the command array; 1-2 replies from {for 1, for 2, unknown id, second for 1, id > 64 bit} arrive and are delivered by mpt_connection_dispatch or mpt_stream_sync; then optionally a new request reuses id 1");
+		dfs(r, [&](Ctx &x) { req_case(r, x, l); });
+		return;
+	}
 	if (job.compare(0, 5, "conn:") == 0 || job.compare(0, 6, "dgram:") == 0) {
 		bool dg = job[0] == 'd';
 		int l = atoi(job.c_str() + (dg ? 12 : 11));
-		if (!dg) for (int k = 0; k < C_NSCRIPT; ++k) r.require(std::string("conn: ") + cscriptnm[k] + ": exactly one reply on the wire, full id, marked");
-		if (!dg) r.require("conn: handler returned an error, exactly one reply on the wire");
-		if (l == 2) r.sample(fmt("%s connection idlen=2: 1..2 requests x {zero id, id} x 7 scripts (no answer, reply, reply twice, mpt_context_reply, defer+late reply, defer+release, dispatch without handler) x handler result {0, error} through mpt_connection_dispatch; replies read at the peer", dg ? "datagram" : "stream backed"));
+		for (int k = 0; k < C_NSCRIPT; ++k) r.require(std::string(dg ? "dgram: " : "conn: ") + cscriptnm[k] + ": exactly one reply on the wire, full id, marked");
+		r.require(std::string(dg ? "dgram: " : "conn: ") + "handler returned an error, exactly one reply on the wire");
+		if (l == 2) r.sample(fmt("%s connection idlen=2: 1..2 requests x {zero id, id} x 8 scripts (no answer, reply, reply twice, mpt_context_reply, defer+late reply, defer+release, dispatch without handler, 300 byte reply) x handler result {0, error} through mpt_connection_dispatch; replies read at the peer", dg ? "datagram" : "stream backed"));
 		dfs(r, [&](Ctx &x) { conn_case(r, x, l, dg); });
 		return;
 	}
@@ -917,6 +1047,7 @@ void mc_replay(Run &r, const std::string &job, const Vec &v)
 		dfs_replay(r, [&](Ctx &x) { id_body(r, c, job, ids, x); }, v);
 		return;
 	}
+	if (job.compare(0, 10, "requester:") == 0) { int l = atoi(job.c_str() + 16); dfs_replay(r, [&](Ctx &x) { req_case(r, x, l); }, v); return; }
 	if (job.compare(0, 5, "conn:") == 0 || job.compare(0, 6, "dgram:") == 0) { bool dg = job[0] == 'd'; int l = atoi(job.c_str() + (dg ? 12 : 11)); dfs_replay(r, [&](Ctx &x) { conn_case(r, x, l, dg); }, v); return; }
 	if (job.compare(0, 7, "stream:") == 0) { int l = atoi(job.c_str() + 13); dfs_replay(r, [&](Ctx &x) { stream_case(r, x, l); }, v); return; }
 	proto_setup(r.tier, job);
